@@ -1398,6 +1398,10 @@ def target_worker_thread(host: str, port: int, shared_aconf: AuditConf) -> Tuple
     except Exception:
         ret = -1
         string_output = "An exception occurred while scanning %s:%d:\n%s" % (host, port, str(traceback.format_exc()))
+    finally:
+        # This worker thread may be re-used for the next target.  Delete its copy of the algorithm databases so that the notes added for this target do not show up in another target's results.
+        SSH1_KexDB.thread_exit()
+        SSH2_KexDB.thread_exit()
 
     return ret, string_output
 
